@@ -26,7 +26,6 @@ def replay(r):
     import torch
     from tangermeme.deep_lift_shap import deep_lift_shap
     A, L, arch, target = r["A"], len(r["x"][0]), r["arch"], r["target"]
-    model = dl.real_model(arch, A, L, seed=r.get("seed", 1))
     seqs = [list(s) for s in itertools.product(range(A), repeat=L)]
     cases = [(r["x"], r["refs"])]
     import random
@@ -35,34 +34,39 @@ def replay(r):
     for _ in range(25):
         cases.append(([rnd.choice(seqs) for _ in r["x"]], [[rnd.choice(seqs) for _ in range(ns)] for _ in r["x"]]))
     extra = {"n_shuffles": r["n_shuffles_arg"]} if r.get("n_shuffles_arg") else {}
-    for x, refs in cases:
-        X = C.real_onehot(x, A).double()
-        R = C.real_onehot(refs, A).double()
-        try:
-            if r.get("history_ops"):
-                other = dl.real_model(arch, A, L, seed=5)
-                act_cls = [type(m_) for m_ in other if not isinstance(m_, (torch.nn.Linear, torch.nn.Conv1d, torch.nn.Flatten, torch.nn.AvgPool1d, torch.nn.MaxPool1d))][0]
-                deep_lift_shap(other, X, references=R, target=target, device="cpu", warning_threshold=1e9, additional_nonlinear_ops={act_cls: (lambda mod, gi, go: gi)})
-            mult = deep_lift_shap(model, X, references=R, target=target, device="cpu", raw_outputs=True, batch_size=r.get("batch_size", 32), warning_threshold=1e9, **extra)
-            attr = deep_lift_shap(model, X, references=R, target=target, device="cpu", batch_size=r.get("batch_size", 32), warning_threshold=1e9, **extra)
-            hyp = deep_lift_shap(model, X, references=R, target=target, device="cpu", hypothetical=True, batch_size=r.get("batch_size", 32), warning_threshold=1e9, **extra)
-            if tuple(mult.shape[:2]) != (len(x), ns):
-                return True, "raw multipliers have shape %s for %d references per example" % (tuple(mult.shape), ns)
-        except Exception as e:
-            return True, "deep_lift_shap raised %s: %s" % (type(e).__name__, e)
-        for i in range(len(x)):
-            acc = torch.zeros(A, L, dtype=torch.float64)
-            for j in range(ns):
-                om = dl.real_oracle(model, X[i], R[i, j], target)
-                band_ok = True
-                if not torch.allclose(mult[i, j], om, atol=1e-8, rtol=1e-7):
-                    return True, "multipliers for x=%s ref=%s differ from the independent rescale-rule computation: %s vs %s" % (x[i], refs[i][j], mult[i, j].tolist(), om.tolist())
-                acc += ((torch.eye(A, dtype=torch.float64)[:, :, None] - R[i, j][None]) * om[None]).sum(dim=1)
-            acc /= ns
-            if not torch.allclose(hyp[i], acc, atol=1e-8, rtol=1e-7):
-                return True, "hypothetical attributions for x=%s differ from sum_c (e_k - ref)[c] * m[c]" % (x[i],)
-            if not torch.allclose(attr[i], acc * X[i], atol=1e-8, rtol=1e-7):
-                return True, "attributions for x=%s differ from the observed-character projection" % (x[i],)
+    # the solver's interpretation of the activation cannot be imposed on real torch: the replay is existential over the
+    # activation (the architecture's own, then non-monotone and other registered ones) and over the weight seed
+    trials = [(None, r.get("seed", 1))] + ([(a_, sd) for sd in (r.get("seed", 1), 2, 3, 4) for a_ in ("GELU", "SiLU", "Mish", "Tanh", "ELU", "Softplus")] if not arch.startswith("tiny:") and arch != "affine" else [])
+    for act_, seed_ in trials:
+        model = dl.real_model(arch, A, L, seed=seed_, act_override=act_)
+        for x, refs in cases:
+            X = C.real_onehot(x, A).double()
+            R = C.real_onehot(refs, A).double()
+            try:
+                if r.get("history_ops"):
+                    other = dl.real_model(arch, A, L, seed=5)
+                    act_cls = [type(m_) for m_ in other if not isinstance(m_, (torch.nn.Linear, torch.nn.Conv1d, torch.nn.Flatten, torch.nn.AvgPool1d, torch.nn.MaxPool1d))][0]
+                    deep_lift_shap(other, X, references=R, target=target, device="cpu", warning_threshold=1e9, additional_nonlinear_ops={act_cls: (lambda mod, gi, go: gi)})
+                mult = deep_lift_shap(model, X, references=R, target=target, device="cpu", raw_outputs=True, batch_size=r.get("batch_size", 32), warning_threshold=1e9, **extra)
+                attr = deep_lift_shap(model, X, references=R, target=target, device="cpu", batch_size=r.get("batch_size", 32), warning_threshold=1e9, **extra)
+                hyp = deep_lift_shap(model, X, references=R, target=target, device="cpu", hypothetical=True, batch_size=r.get("batch_size", 32), warning_threshold=1e9, **extra)
+                if tuple(mult.shape[:2]) != (len(x), ns):
+                    return True, "raw multipliers have shape %s for %d references per example" % (tuple(mult.shape), ns)
+            except Exception as e:
+                return True, "deep_lift_shap raised %s: %s" % (type(e).__name__, e)
+            for i in range(len(x)):
+                acc = torch.zeros(A, L, dtype=torch.float64)
+                for j in range(ns):
+                    om = dl.real_oracle(model, X[i], R[i, j], target)
+                    band_ok = True
+                    if not torch.allclose(mult[i, j], om, atol=1e-8, rtol=1e-7):
+                        return True, "multipliers for x=%s ref=%s differ from the independent rescale-rule computation: %s vs %s" % (x[i], refs[i][j], mult[i, j].tolist(), om.tolist())
+                    acc += ((torch.eye(A, dtype=torch.float64)[:, :, None] - R[i, j][None]) * om[None]).sum(dim=1)
+                acc /= ns
+                if not torch.allclose(hyp[i], acc, atol=1e-8, rtol=1e-7):
+                    return True, "hypothetical attributions for x=%s differ from sum_c (e_k - ref)[c] * m[c]" % (x[i],)
+                if not torch.allclose(attr[i], acc * X[i], atol=1e-8, rtol=1e-7):
+                    return True, "attributions for x=%s differ from the observed-character projection" % (x[i],)
     return False, "ok"
 
 
